@@ -316,3 +316,62 @@ def r6(cx):
                                  "holder's lease - its renew succeeds instead of reporting the loss, and its complete / fail ends a live lease" % (
                                      b.sp(bi, si), name, ("derives from %s" % (from_caller or other_calls)) if (from_caller or other_calls) else "does not come from a new random UUID"), [b.sp(bi, si)])
     cx.floor("CompactionLease constructions in acquire_lease", n, 2)
+
+
+def _deep_loads(b, op, at, rx, limit=400):
+    """load calls (block indices) the operand transitively derives from: follows call origins through all of their arguments and
+    aggregate origins (closure environments, tuples) through their operands"""
+    loads, seen, work, n = set(), set(), [(op, at)], 0
+    while work and n < limit:
+        o, site = work.pop()
+        n += 1
+        for org in M.operand_origins(b, o, at=site):
+            if org[0] == "call":
+                bi, callee = org[1]
+                if rx.search(callee):
+                    loads.add(bi)
+                elif ("c", bi) not in seen:
+                    seen.add(("c", bi))
+                    for a in b.term(bi)["args"]:
+                        work.append((a, (bi, M.T)))
+            elif org[0] == "agg":
+                bi, si = org[1][0], org[1][1]
+                if ("a", bi, si) not in seen:
+                    seen.add(("a", bi, si))
+                    for a in b.blocks[bi]["stmts"][si]["rv"].get("ops") or []:
+                        work.append((a, (bi, si)))
+    return loads
+
+
+@rule("C08", "R7", "check and act on one read: in the object-store acquire_lease the conflict list whose emptiness guards the insert is computed from the lease table returned by the "
+      "same load_leases_with_etag call whose table receives the new lease and whose token conditions the save - a conflict check made on an earlier read (before the retry loop) "
+      "is not protected by the compare-and-swap: another node's lease written in between is overlapped")
+def r7(cx):
+    from rules.C02 import LOAD_RX
+    fk = S3T + "acquire_lease"
+    bk = fk + "::{closure#0}"
+    b = cx.body(bk)
+    if b is None:
+        cx.violation(fk, "anchor-missing:mir", "body not found", [])
+        return
+    ins = [bi for bi in M.find_calls(b, lambda c: c == "std::collections::HashMap::<K, V, S, A>::insert")
+           if any(o[0] == "agg" and "CompactionLease" in str(o[1][2]) for a in b.term(bi)["args"][1:] for o in M.operand_origins(b, a, at=(bi, M.T)))]
+    if not cx.floor("lease insert in acquire_lease (object-store)", len(ins), 1, fk):
+        return
+    for i in ins:
+        tl = {o[1][0] for o in M.provenance(b, b.term(i)["args"][0]["pl"]) if o[0] == "call" and LOAD_RX.search(o[1][1])}
+        guards = []
+        for sw in M.bool_switches(b):
+            r = sw["root"]
+            if r and r[2] == "call" and r[3]["callee"] == "std::vec::Vec::<T, A>::is_empty" and b.dominated_by_edges(i, {sw["true_edge"]}):
+                guards.append((r[0], _deep_loads(b, r[3]["args"][0], (r[0], M.T), LOAD_RX)))
+        if not tl or not guards:
+            cx.violation(fk, "conflict-check-on-the-saved-read", "%s: cannot relate the lease insert to a load_leases_with_etag call and an emptiness guard (table loads %s, guards %s)" % (
+                b.sp(i), sorted(tl), guards), [b.sp(i)])
+        elif any(g[1] and g[1] <= tl for g in guards):
+            cx.passed(fk, "conflict-check-on-the-saved-read", [b.sp(i)] + [b.sp(g[0]) for g in guards], "guard and insert both derive from the load at %s" % b.sp(sorted(tl)[0]))
+        else:
+            g = guards[0]
+            cx.violation(fk, "conflict-check-on-the-saved-read", "%s: the conflict check guarding the lease insert is computed from the read at %s, the lease is inserted into (and the save "
+                         "conditioned on) the read at %s: a lease another node writes between the two reads is not seen, and the conditional save succeeds against the later version - "
+                         "two holders for one chunk" % (b.sp(g[0]), [b.sp(x) for x in sorted(g[1])] or "no load", [b.sp(x) for x in sorted(tl)]), [b.sp(g[0]), b.sp(i)])
